@@ -1,5 +1,6 @@
 """C06 - objID / specObjID packing.  Spec: spec/IdLayout.tla; MC: mc/MC_IdLayout; Trace: trace/Trace_IdLayout."""
 import random
+import re
 
 import numpy as np
 
@@ -56,7 +57,9 @@ def outcome(fn):
     return {'err': False, 'id': int_to_bits(int(r[0])), 'exc': None}
 
 
-def unwrap(kind, idint, as_string=False):
+def unwrap(kind, idint, as_string=False, variant=0):
+    """variant (specObjID only): bit 0 = specLineIndex (the low bits come back in the column 'index' instead of 'line'),
+    bit 1 = run2d in the vN_M_P form instead of the integer form; the keywords are exercised in every combination."""
     from pydl.photoop.photoobj import unwrap_objid
     from pydl.pydlutils.sdss import unwrap_specobjid
     if kind == 'obj':
@@ -70,9 +73,20 @@ def unwrap(kind, idint, as_string=False):
     a = np.array([idint], dtype=np.uint64)
     if as_string:
         a = a.astype(str)
-    u = unwrap_specobjid(a, run2d_integer=True)
-    return {'plate': int(u.plate[0]), 'fiber': int(u.fiber[0]), 'mjd': int(u.mjd[0]), 'run2d': int(u.run2d[0]),
-            'line': int(u.line[0])}
+    line_index = bool(variant & 1)
+    as_int = not (variant & 2)
+    u = unwrap_specobjid(a, run2d_integer=as_int, specLineIndex=line_index)
+    low = u['index'] if line_index else u['line']
+    if as_int:
+        r2 = int(u.run2d[0])
+    else:
+        # documented relation of the two forms (IdLayout!Run2dOfString): vN_M_P <-> (N-5)*10000 + M*100 + P
+        m = re.match(r'^v(\d+)_(\d+)_(\d+)$', str(u.run2d[0]))
+        r2 = (int(m.group(1)) - 5) * 10000 + int(m.group(2)) * 100 + int(m.group(3)) if m else -1
+    if ('line' in u.dtype.names) == line_index or ('index' in u.dtype.names) != line_index:
+        return {'exc': 'columns %r with specLineIndex=%r' % (u.dtype.names, line_index)}
+    return {'plate': int(u.plate[0]), 'fiber': int(u.fiber[0]), 'mjd': int(u.mjd[0]), 'run2d': r2,
+            'line': int(low[0])}
 
 
 def arr1(v):
@@ -245,7 +259,7 @@ def run(ctx):
             idint = bits_to_int(exp['id'])
             for as_string in (False, True):
                 try:
-                    u = unwrap(c['kind'], idint, as_string)
+                    u = unwrap(c['kind'], idint, as_string, variant=(n + 2 * as_string) % 4)
                 except Exception as ex:
                     u = {'exc': repr(ex)}
                 w = dict(c['f'])
@@ -253,7 +267,7 @@ def run(ctx):
                     w['mjd'] += 50000
                 if u != w:
                     good = False
-                    obs = dict(obs, unwrapped=u, unwrap_as_string=as_string)
+                    obs = dict(obs, unwrapped=u, unwrap_as_string=as_string, unwrap_variant=(n + 2 * as_string) % 4)
             if c['str'] and good:
                 from pydl.pydlutils.sdss import unwrap_specobjid
                 s = unwrap_specobjid(np.array([idint], dtype=np.uint64)).run2d[0]
@@ -306,7 +320,7 @@ def run(ctx):
         rec = {'kind': kind, 'f': f, 'conv': conv, 'ret': {'err': obs['err'], 'id': obs['id']}, 'exc': obs['exc'] or ''}
         if not obs['err']:
             try:
-                u = unwrap(kind, bits_to_int(obs['id']), as_string=bool(k % 2))
+                u = unwrap(kind, bits_to_int(obs['id']), as_string=bool(k % 2), variant=(k // 2) % 4)
             except Exception as ex:
                 u = {'exc': repr(ex)}
             rec['unwrapped'] = u
